@@ -70,6 +70,29 @@ theorem intersect_sub_union_nodes (a b : NodeList) (x : String) (h : x ∈ (a.in
     x ∈ (a.union b).ids := by
   rw [intersect_ids] at h; rw [union_ids]; exact Or.inl h.1
 
+/-- with the union (C09) the node sets form a distributive lattice: intersection distributes over
+    union … -/
+theorem intersect_union_distrib_nodes (a b c : NodeList) (x : String) :
+    x ∈ (a.intersect (b.union c)).ids ↔ x ∈ ((a.intersect b).union (a.intersect c)).ids := by
+  simp only [intersect_ids, union_ids]; grind
+
+/-- … union distributes over intersection … -/
+theorem union_intersect_distrib_nodes (a b c : NodeList) (x : String) :
+    x ∈ (a.union (b.intersect c)).ids ↔ x ∈ ((a.union b).intersect (a.union c)).ids := by
+  simp only [intersect_ids, union_ids]; grind
+
+/-- … and the second absorption law (the first is `intersect_union_absorb`) -/
+theorem union_intersect_absorb (a b : NodeList) (x : String) :
+    x ∈ (a.union (a.intersect b)).ids ↔ x ∈ a.ids := by
+  simp only [intersect_ids, union_ids]; grind
+
+/-- an intersection's edges are edges of the union of the operands (both restrict to present nodes) -/
+theorem intersect_sub_union_edges (a b : NodeList) (s t d) (h : (a.intersect b).HasEdge s t d) :
+    (a.union b).HasEdge s t d := by
+  rw [intersect_edgeset] at h
+  rw [union_edges, union_ids, union_ids]
+  grind
+
 /-- idempotent: same nodes, the roots that name a node, the edges between present nodes -/
 theorem intersect_idem (a : NodeList) :
     (∀ x, x ∈ (a.intersect a).ids ↔ x ∈ a.ids) ∧
